@@ -356,3 +356,30 @@ func ssh1Private(k rsaKey, check [2]byte, pad int) []byte {
 	}
 	return out
 }
+
+// ---------- X.509 certificate (RFC 5280 4.1), written field by field ----------
+
+func derUTCTime(s string) []byte { return derTLV(0x17, []byte(s)) }
+
+// derName: one RDN with a commonName
+func derName(cn string) []byte {
+	return derSeq(derTLV(0x31, derSeq(derOID(2, 5, 4, 3), derTLV(0x0c, []byte(cn)))))
+}
+
+// certDER wraps a SubjectPublicKeyInfo in a certificate. The signature value is arbitrary
+// octets: reading a certificate does not verify it. version is 1 or 3.
+func certDER(version int, serial *big.Int, issuerCN, subjectCN string, spki, sig []byte) []byte {
+	sigAlg := derSeq(derOID(1, 2, 840, 113549, 1, 1, 11), derNull()) // sha256WithRSAEncryption
+	var tbs [][]byte
+	if version == 3 {
+		tbs = append(tbs, derExplicit(0, derSmall(2)))
+	}
+	tbs = append(tbs, derInt(serial), sigAlg, derName(issuerCN),
+		derSeq(derUTCTime("240101000000Z"), derUTCTime("340101000000Z")), derName(subjectCN), spki)
+	return derSeq(derSeq(tbs...), sigAlg, derBits(sig))
+}
+
+// ---------- OpenPGP public key packet body (RFC 4880 5.5.2, 3.2) ----------
+
+// pgpMPI: two-octet bit count, then the magnitude (same layout as the SSH1 MPI)
+func pgpMPI(z *big.Int) []byte { return ssh1MPI(z) }
